@@ -25,7 +25,7 @@ func init() {
 			"C20.safe: the user's Marshal*/Unmarshal* method is invoked only inside a function with a deferred recover whose result is turned into the returned error; callForCase protects the hooks the same way. " +
 			"C20.verdict: with an error predicate: the predicate is invoked with (t, the obtained error, info) and, on true, an emptiness assertion (assert.Empty / the TypeHelper; not assert.Nil, which also fails on an empty non-nil result) on the produced data/value follows; without: NoError on the obtained error and, on true, an equality assertion between the case's expectation and the produced data/value; every assertion receives the helper's t; the expectation reaches the assertion as loaded from the case, unconverted, and two byte slices are not compared raw with assert.Equal (nil ≠ empty there) but as text or after the both-empty case is merged. " +
 			"C20.pred: each error predicate calls the assertion its name promises (assertion), and can answer false only where an assertion on t is known to have failed — the returned value is an assertion's own result, or the return lies behind the false edge of one, or behind assert.Fail (reports). panicError(err, r) is err for r == nil and a freshly constructed error otherwise, and the deferred closures store exactly its result (or an error constructed on the spot); the emptiness and equality assertions lie on every path after the satisfied condition; helperNew returns the zero value of T on every return other than the fresh allocation and helper.New." +
-			" C20.verdict 'nothing else': every call that can fail t is the missing-interface report, the report of a failed hook, or lies behind the protected call; 'input': the protected unmarshal call is handed the case's Data itself. Since audit round 3: every FailNow on t lies behind the direction filter and reports the lack of the interface that declares the helper's method; calls on t behind the protected call must take part in the verdict; the wrapper invokes the user's method on its own parameters unchanged; callForCase returns the hook's own result; the deferred closure holds exactly one recover().",
+			" C20.verdict 'nothing else': every call that can fail t is the missing-interface report, the report of a failed hook, or lies behind the protected call; 'input': the protected unmarshal call is handed the case's Data itself. Since audit round 3: every FailNow on t lies behind the direction filter and reports the lack of the interface that declares the helper's method; calls on t behind the protected call must take part in the verdict; the wrapper invokes the user's method on its own parameters unchanged; callForCase returns the hook's own result; the deferred closure holds exactly one recover() and is the only deferred function that recovers; the probed interface declares the helper's method and no other.",
 		NotDecided:  []string{"testify's assertion semantics", "behaviour when T is itself an interface type, beyond castToFunc probing the case value itself (C20.support probe)", "panic(nil) in a marshaler: recover() returns nil under the module's go 1.18 semantics, the panic passes as success (DESIGN §16)"},
 		Assumptions: []string{"\"restricted to the other direction\" is read as: a constraint that is neither 0 nor this direction's constant (an undeclared constraint value applies to neither direction)", "assert.NoError/Equal/Nil/Empty/Error report a failure on t exactly when their condition does not hold and return false then"},
 		Technique:   "must-call / dominance / argument-dataflow obligations over go/ssa, applied uniformly to sibling implementations",
